@@ -26,6 +26,10 @@ MUTANTS = [
     {"name": "packet-popped-before-ready", "file": "src/proxy/backend.rs", "old": "                match writer.as_mut().poll_ready(cx) {\n                    Poll::Pending => break Ok(()),\n                    Poll::Ready(Ok(())) => (),\n                    Poll::Ready(Err(err)) => break Err(err),\n                }\n\n                match packets.pop_front() {", "new": "                let popped = packets.pop_front();\n                match writer.as_mut().poll_ready(cx) {\n                    Poll::Pending => break Ok(()),\n                    Poll::Ready(Ok(())) => (),\n                    Poll::Ready(Err(err)) => break Err(err),\n                }\n\n                match popped {", "expect": "C08.D2:popped-packet-is-sent"},
     {"name": "timeout-without-drain", "file": "src/proxy/backend.rs", "old": "                    let failed_tasks = tasks.drain(..).collect();\n                    // For timeout we just don't retry as it will take a long time.\n                    let retry_state = handle_conn_err(Some(MAX_BACKEND_RETRY), failed_tasks, &err);", "new": "                    let failed_tasks = vec![];\n                    // For timeout we just don't retry as it will take a long time.\n                    let retry_state = handle_conn_err(Some(MAX_BACKEND_RETRY), failed_tasks, &err);", "expect": "C08.D3"},
     {"name": "conn-err-drops-tasks", "file": "src/proxy/backend.rs", "old": "            task.set_result(Err(cmd_err));\n        }\n        None", "new": "            drop((task, cmd_err));\n        }\n        None", "expect": "C08.D3:handle_conn_err"},
+    {"name": "timeout-budget-off-by-one", "file": "src/proxy/backend.rs", "old": "    if retry_times >= MAX_BACKEND_RETRY {", "new": "    if retry_times > MAX_BACKEND_RETRY {", "expect": "C08.D3:constant-budget-gives-up"},
+    {"name": "session-flush-skipped", "file": "src/proxy/session.rs", "old": "                    break Pin::new(&mut writer).poll_flush(cx);", "new": "                    if data_received {\n                        break Pin::new(&mut writer).poll_flush(cx);\n                    }\n                    break Poll::Ready(Ok(()));", "expect": "C08.D4:write-loop-never-skips-flush"},
+    {"name": "session-future-pushed-front", "file": "src/proxy/session.rs", "old": "                    reply_receiver_list.push_back(fut);", "new": "                    reply_receiver_list.push_front(fut);", "expect": "C08.D4"},
+    {"name": "session-future-dropped-when-full", "file": "src/proxy/session.rs", "old": "                    reply_receiver_list.push_back(fut);", "new": "                    if reply_receiver_list.len() < SESSION_BATCH_BUF * 1024 {\n                        reply_receiver_list.push_back(fut);\n                    }", "expect": "C08.D4:every-command-queues-its-future"},
 ]
 
 
@@ -34,6 +38,8 @@ def run(ctx):
     ctx.rule("C08.D1", "send-once typestate: set_result / set_resp_result by value in all CmdTask impls; reply channel Option + take(); Drop answers Dropped; not Clone")
     ctx.rule("C08.D2", "FIFO discipline in handle_conn: only FIFO queue operations, one packet per task, popped packet is sent, one task popped per packet read and handled")
     ctx.rule("C08.D3", "failure drains: every error return drains all tasks into handle_conn_err (retry all or answer each); reconnect failure answers carried-over tasks")
+    ctx.rule("C08.D4", "session side: reply futures and replies are queued and consumed in FIFO order only, each handled command contributes one queued future, a popped reply is sent, and the write loop never reports completion without flushing")
+    _session(ctx)
     _typestate(ctx)
     _fifo(ctx)
     _drains(ctx)
@@ -209,6 +215,8 @@ def _drains(ctx):
         bars = {(x[0], x[1]) for x in rs} | {(x, len(e.blocks[x].stmts)) for x in it}
         p = cfg.path_avoiding(e, (0, -1), set(e.return_blocks()), bars)
         ctx.check(p is None, "C08.D3", "handle_conn_err:no-third-way", site(e), ok="tasks are either kept or answered", bad="handle_conn_err can return without keeping or answering the tasks")
+    if e is not None and b is not None:
+        _retry_budget(ctx, F, b, e)
     hb = [x for x in F.all_bodies(bins=False) if x.path == "proxy::backend::handle_backend::{closure#0}"]
     if not hb:
         ctx.lost("C08.D3", "handle_backend", "async body not found")
@@ -259,3 +267,109 @@ def _drains(ctx):
             if pth is None:
                 ok_loop = True
         ctx.check(ok_loop, "C08.D3", "reconnect-failure:each-task-answered", site(h, it_bb), ok="every carried-over task gets set_resp_result", bad="the loop over carried-over tasks can skip a task")
+
+
+def _retry_budget(ctx, F, b, e):
+    """handle_conn_err evaluated on concrete retry counts (constant propagation): (i) a call site that passes a constant
+    count means `do not retry` (the timeout branch) and must get None, otherwise a request the backend never answers is
+    re-sent for ever and its client gets silence; (ii) starting from None the carried count reaches the give-up branch
+    after finitely many failures"""
+    from ..sccp import Interp, Oracle, Int, Some, NONE
+    du = DefUse(b)
+
+    def ev(v):
+        try:
+            return Interp(F, e, Oracle(args={1: v})).run().return_value()
+        except Exception:
+            return None
+    n = 0
+    for bb, t in calls_to(b, "handle_conn_err"):
+        sl = du.slice_operand(t["args"][0])
+        ints = [c.get("int") for c in sl.consts if c.get("int") is not None]
+        if sl.captures or sl.params or len(ints) != 1:
+            continue
+        n += 1
+        rv = ev(Some(Int(ints[0])))
+        ctx.check(rv == NONE, "C08.D3", "constant-budget-gives-up#%d" % n, site(b, bb), ok="handle_conn_err(Some(%d)) answers every task (no retry)" % ints[0],
+                  bad="this branch passes the constant retry count %d meaning `do not retry`, but handle_conn_err(Some(%d)) returns %s: the timed-out requests are re-sent on the next connection again and again and never get a reply" % (ints[0], ints[0], "a retry state" if rv != NONE and rv is not None else rv))
+    ctx.floor("C08.D3", "handle_conn_err call sites with a constant retry count", n, 1)
+    v = NONE
+    steps = 0
+    ended = False
+    while steps < 64:
+        rv = ev(v)
+        if rv == NONE:
+            ended = True
+            break
+        if not (rv and rv[0] == "agg" and rv[2] == 1 and rv[3] and rv[3][0][0] == "agg" and rv[3][0][3] and rv[3][0][3][0][0] == "int"):
+            break
+        nxt = rv[3][0][3][0][1]
+        v = Some(Int(nxt))
+        steps += 1
+    ctx.check(ended, "C08.D3", "retry-budget-finite", site(e), ok="gives up after %d consecutive failures" % steps, bad="the carried retry count never reaches the give-up branch (stopped after %d steps at %s)" % (steps, v))
+
+
+FIFO_OK = {"push_back", "pop_front", "front", "front_mut", "is_empty", "len", "with_capacity", "new", "capacity", "reserve", "iter"}
+
+
+def _session(ctx):
+    F = ctx.F
+    R = "C08.D4"
+    cands = [b for b in F.all_bodies(bins=False) if b.path.startswith("proxy::session::handle_session::{closure#0}::{closure") and b.kind == "Closure" and calls_to(b, "VecDeque::pop_front")]
+    if not ctx.floor(R, "handle_session poll closure", len(cands), 1):
+        return
+    b = cands[0]
+    ctx.analysed(b)
+    du = DefUse(b)
+    dom = cfg.dominators(b)
+    # FIFO discipline on the two queues
+    bad = []
+    nq = 0
+    for bb, t in b.calls():
+        c = callee_of(t) or ""
+        if not c.startswith("std::collections::VecDeque::"):
+            continue
+        sl = du.slice_operand(t["args"][0], deep=False) if t["args"] else None
+        q = next((x for x in ("reply_receiver_list", "replies") if sl is not None and x in sl.captures), None)
+        if q is None:
+            continue
+        nq += 1
+        if c.rsplit("::", 1)[-1] not in FIFO_OK:
+            bad.append((q, c.rsplit("::", 1)[-1], bb))
+    ctx.floor(R, "queue operations in the session", nq, 5)
+    ctx.check(not bad, R, "session-fifo-ops", site(b, bad[0][2]) if bad else site(b), ok="only push_back / pop_front / front on reply_receiver_list and replies", bad="non-FIFO operation %s: replies would be written out of request order" % [(q, o) for q, o, _ in bad])
+    # one queued future per handled command
+    hc = [(bb, t) for bb, t in b.calls() if (callee_decl(t) or "").endswith("CmdHandler::handle_cmd")]
+    pb = [(bb, t) for bb, t in calls_to(b, "VecDeque::push_back") if "reply_receiver_list" in du.slice_operand(t["args"][0], deep=False).captures]
+    if ctx.floor(R, "handle_cmd calls in the session", len(hc), 1) and ctx.floor(R, "push_back on reply_receiver_list", len(pb), 1):
+        ok = all(du.slice_operand(t["args"][1]).has_call("handle_cmd") for bb, t in pb)
+        ctx.check(ok, R, "queued-future-is-the-handlers", site(b, pb[0][0]), ok="the queued future is the one returned by handle_cmd", bad="a future that does not come from handle_cmd is queued")
+        heads = {h for _, h in cfg.natural_loops(b)}
+        for bb, t in hc:
+            # from the handle_cmd call every way on (back to the loop head or out) passes the push
+            pbb = {x for x, _ in pb}
+            esc = cfg.path_avoiding(b, (bb, len(b.blocks[bb].stmts)), heads | set(b.return_blocks()), {(x, len(b.blocks[x].stmts)) for x in pbb}) if hasattr(cfg, "path_avoiding") else None
+            ctx.check(esc is None, R, "every-command-queues-its-future", site(b, bb), ok="handle_cmd is always followed by push_back of its future", bad="a handled command can leave no future in the reply queue: it never gets a reply and later replies shift")
+    # popped reply is sent
+    pops = [(bb, t) for bb, t in calls_to(b, "VecDeque::pop_front") if "replies" in du.slice_operand(t["args"][0], deep=False).captures]
+    sends = [(bb, t) for bb, t in b.calls() if (callee_decl(t) or callee_of(t) or "").endswith("Sink::start_send")]
+    if ctx.floor(R, "replies.pop_front", len(pops), 1) and ctx.floor(R, "start_send", len(sends), 1):
+        ctx.check(all(du.slice_operand(t["args"][1]).has_call("pop_front") for bb, t in sends), R, "popped-reply-is-sent", site(b, sends[0][0]), ok="start_send is given the popped reply", bad="start_send is not given the reply popped from the queue")
+    # the write loop's result: Pending, an error, or the result of poll_flush - never a made-up Ready(Ok)
+    fl = [(bb, t) for bb, t in b.calls() if (callee_decl(t) or callee_of(t) or "").endswith("Sink::poll_flush")]
+    if not ctx.floor(R, "poll_flush in the session", len(fl), 1):
+        return
+    res_l = fl[0][1]["dest"]["l"]
+    made_up = []
+    for d in du.defs.get(res_l, []):
+        if d[0] == "assign" and d[3]["rv"]["k"] == "agg" and d[3]["rv"].get("variant") == "Ready":
+            av = agg_variant_of(du, d[3]["rv"]["ops"][0])
+            if not (av and av[1] == "Err"):
+                made_up.append(d[1])
+    ctx.check(not made_up, R, "write-loop-never-skips-flush", site(b, made_up[0]) if made_up else site(b, fl[0][0]), ok="the write loop ends with Pending, an error or the result of poll_flush",
+              bad="the write loop can end with a made-up Ready(Ok) without calling poll_flush: bytes left in the sink after an earlier Pending flush are never written, the client receives a truncated reply")
+    # and poll_flush is reached whenever the queue is found empty
+    for bb, t in pops:
+        succ_none = None
+        # the None arm of the pop: flush must be reachable from it without another pop / send and must be the only exit
+        ctx.check(any(cfg.reaches(b, bb, f) for f, _ in fl), R, "flush-reachable-after-pop", site(b, bb), ok="poll_flush reachable after the queue was polled", bad="poll_flush is not reachable after replies.pop_front()")
